@@ -3,6 +3,7 @@
    (INIT_BYTES = init_size).  Plus the non-default list initializers of the harness (arrays of all-ones items). *)
 From SF Require Import Base.Prelude Gen.Generated Unsized.Types Unsized.Parse Unsized.Machine Unsized.Ops.
 From SF Require Import Unsized.Proofs.EncodeParse Unsized.Proofs.Layout.
+From SF Require Import Unsized.Proofs.EnumFacts.
 
 Arguments Z.add : simpl never.
 Arguments Z.sub : simpl never.
@@ -29,7 +30,10 @@ Fixpoint zero_ok (t : ty) : bool :=
   | TFixed c => fvalid c (repeat 0 (fsize c))
   | TList _ _ | TRem | TUList _ _ => true
   | TStruct ts => (fix go ts := match ts with [] => true | t :: r => zero_ok t && go r end) ts
-  | TEnum _ _ => false
+  | TEnum rw vs =>
+      (* DefaultInit of an enum initialises its FIRST listed variant (Ops.init_bytes): that discriminant has to fit
+         the repr and the variant's payload has to be default-initialisable *)
+      match vs with (d, vt) :: _ => (0 <=? d) && (d <? 256 ^ Z.of_nat rw) && zero_ok vt | [] => false end
   end.
 
 (* ---------------------------------------------------------------------------------------------- *)
@@ -158,7 +162,14 @@ Proof.
       destruct (Ht Hp1 Hz1) as (A & B & C). destruct (IHts Hp2 Hz2) as (A' & B' & C').
       cbn [map]. rewrite init_bytes_struct_cons, init_size_struct_cons, encode_struct_cons, wf_struct_cons.
       rewrite A, A', B, B', C, C', zlen_app. cbn [obind andb]. auto.
-  - cbn in Hpl. discriminate.
+  - (* enum: the first listed variant *)
+    destruct vs as [|[d vt] r]; [cbn in Hz; discriminate|].
+    cbn [zero_ok] in Hz. apply andb_true_iff in Hz as [Hd Hzv]. apply andb_true_iff in Hd as [Hd1 Hd2].
+    assert (Hf : find_variant d ((d, vt) :: r) = Some vt) by (cbn [find_variant]; now rewrite Z.eqb_refl).
+    pose proof (plain_enum_find _ _ _ _ Hpl Hf) as Hplv.
+    apply Forall_cons_iff in IH as [Ht _]. cbn [snd] in Ht. destruct (Ht Hplv Hzv) as (A & B & C).
+    cbn [dflt init_bytes init_size]. rewrite A. cbn [obind].
+    rewrite (encode_enum_some _ _ _ _ _ Hf), wf_enum, Hf, C, Hd1, Hd2, zlen_app, zlen_le_bytes, B. auto.
 Qed.
 
 Print Assumptions init_default_exact.
